@@ -194,7 +194,7 @@ func classifyCuts(c *Ctx, res *report.Result, rule, owner string, cb, top *ssa.F
 			if !ok || len(ret.Results) < 1 {
 				continue
 			}
-			for _, alt := range actionAlts(ret.Results[0], b, 0) {
+			for _, alt := range actionAlts(flow.Ret(ret)[0], b, 0) {
 				gs := flow.NormGuards(flow.Guards(alt.block))
 				var gtxt []string
 				for _, g := range gs {
@@ -220,7 +220,7 @@ func classifyCuts(c *Ctx, res *report.Result, rule, owner string, cb, top *ssa.F
 				case "Stop":
 					errOp := ssa.Value(nil)
 					if len(ret.Results) > 1 {
-						errOp = ret.Results[len(ret.Results)-1]
+						errOp = flow.Ret(ret)[len(ret.Results)-1]
 					}
 					if errOp != nil && !flow.IsNilConst(flow.ResolveLoad(errOp)) {
 						res.Hold(rule, construct, pos, "class error: Stop is accompanied by a non-nil error operand")
@@ -262,7 +262,7 @@ func classifyCalleeActions(c *Ctx, res *report.Result, rule, owner string, f *ss
 			if !ok || len(ret.Results) <= idx {
 				continue
 			}
-			for _, alt := range actionAlts(ret.Results[idx], b, 0) {
+			for _, alt := range actionAlts(flow.Ret(ret)[idx], b, 0) {
 				gs := flow.NormGuards(flow.Guards(alt.block))
 				var gtxt []string
 				for _, g := range gs {
